@@ -205,6 +205,12 @@ def _work(job: t.Tuple[t.Any, ...]) -> evid.Local:
                     _emit(loc, f"({op}{a}{b})")
                     _emit(loc, f"({op}{b}{a}{b})")
                     _emit(loc, f" ( {op} {a} {b} ) ")
+        # text that a Unicode normalisation (NFC / NFKC / NFD / case folding) would rewrite: RFC 4515 values are octets,
+        # the UTF-8 of exactly the characters given
+        odd = ["e\u0301", "A\u030a", "\u212b", "\u2126", "\u1100\u1161", "\ufb01", "\uff11", "\u00c5", "\u00df", "\u0130", "\u1e9e", "\u03a3\u03c2", "\u00a0", "\u00ad", "\u200d", "\u0958", "\U0002f800"]
+        for u in odd:
+            for tpl in ("(cn={u})", "(cn=a{u}*{u}b*{u})", "(cn~={u}{u})", "(cn:dn:2.4.6:={u})", "(&(o>={u})(!(cn<=x{u})))", " ( | (cn={u}) (sn=*{u}) ) "):
+                _emit(loc, tpl.format(u=u))
     elif fam == "d3":
         decs = decorate(8, 1)
         a = small[job[1]]
